@@ -167,7 +167,17 @@ def members(tier):
 def wiring_members():
     """differing input wirings over shared worlds: (bucket, key, descriptor)"""
     out = []
-    specs = [(families.mount2, None), (families.mount2p, None), (families.diamond, None), (families.optpat, None), (families.chain3, None), (families.uses2, None)]
+    def samename():
+        # one short name `features` provided by different tasks (other group, other class) with equal parameters: the consumer that
+        # names it by the short form, and everything downstream, is a different computation in each variant
+        P, bn = families.P, families.by_name
+        T = lambda name, group=None, inputs=(), params=(): {'name': name, 'group': group, 'params': list(params), 'inputs': list(inputs), 'data': 'json'}  # noqa
+        return {'name': 'samename', 'tasks': {'Raw': T('features', 'raw', params=[P('pf', default=1)]), 'Scaled': T('features', 'scaled', params=[P('pf', default=1)]),
+                                               'Plain': T('features', None, params=[P('pf', default=1)]),
+                                               'Model': T('model', None, inputs=[bn('features')]), 'Report': T('report', None, inputs=[bn('model')])},
+                'configs': {'root': {'medium': 'json', 'tasks': ['Raw', 'Model', 'Report'], 'values': {}}}, 'root': 'root',
+                'variants': {'vraw': [], 'vscaled': [[['configs', 'root', 'tasks'], ['Scaled', 'Model', 'Report']]], 'vplain': [[['configs', 'root', 'tasks'], ['Plain', 'Model', 'Report']]]}}
+    specs = [(families.mount2, None), (families.mount2p, None), (families.diamond, None), (families.optpat, None), (families.chain3, None), (families.uses2, None), (samename, None)]
     for f, _ in specs:
         desc = f()
         root = scratch.fresh('c03w')
@@ -182,6 +192,57 @@ def wiring_members():
             w.dispose()
             scratch.drop(root)
     return out
+
+
+def inplace_sweep():
+    """one data dict kept by the program and edited IN PLACE between constructions (a sweep loop in a notebook): every setting is a
+    different computation and gets its own location, the same as when the setting is written out as a fresh dict"""
+    import copy
+    from pathlib import Path
+
+    from taskchain import Config, Parameter, Task
+
+    class Train(Task):
+        class Meta:
+            parameters = [Parameter('model'), Parameter('tags', default=None)]
+
+        def run(self, model) -> dict:
+            return model
+
+    class Evaluate(Task):
+        class Meta:
+            input_tasks = [Train]
+
+        def run(self, train) -> dict:
+            return train
+
+    out = []
+    root = scratch.fresh('c03s')
+    try:
+        data = {'tasks': [Train, Evaluate], 'model': {'optimizer': {'lr': 0.1, 'betas': [0.9]}, 'layers': [16]}, 'tags': ['a']}
+        edits = [lambda d: None,
+                 lambda d: d['model']['optimizer'].__setitem__('lr', 0.01),
+                 lambda d: d['model']['layers'].append(32),
+                 lambda d: d['model']['optimizer']['betas'].append(0.99),
+                 lambda d: d['tags'].append('b'),
+                 lambda d: d['model'].__setitem__('dropout', 0.5)]
+        seen = {}
+        for i, edit in enumerate(edits):
+            edit(data)
+            ch = Config(Path(root) / 'data', name='sweep', data=data).chain()
+            fresh = Config(Path(root) / 'data', name='sweep', data=copy.deepcopy({k: v for k, v in data.items() if k != 'tasks'}) | {'tasks': [Train, Evaluate]}).chain()
+            for t in ('train', 'evaluate'):
+                key, fkey = ch[t].name_for_persistence, fresh[t].name_for_persistence
+                snap = repr({k: v for k, v in data.items() if k != 'tasks'})
+                if key != fkey:
+                    out.append(Violation('sweep: location depends on whether a value was edited in place or written out afresh', f'step {i} task {t}: {key} vs {fkey} for {snap}', {'kind': 'sweep'}))
+                if (t, key) in seen and seen[(t, key)] != snap:
+                    out.append(Violation('sweep: different computations have the same key (value edited in place between constructions)',
+                                         f'task {t}: {seen[(t, key)]} and {snap} both stored under {key}', {'kind': 'sweep'}))
+                seen[(t, key)] = snap
+    finally:
+        scratch.drop(root)
+    return out[:3]
 
 
 def run(tier, seed):
@@ -233,6 +294,8 @@ def run(tier, seed):
             res.violations.append(Violation(sig, f'task {bucket}: {[l for l, q, t in items][:4]} all stored under {key} (key text {items[0][2]!r})',
                                             {'bucket': bucket, 'members': [l for l, q, t in items][:4]}))
     res.coverage['colliding_buckets'] = ncoll
+    res.violations.extend(inplace_sweep())
+    res.coverage['evaluations'] += 12
     res.coverage['traces_validated_against_impl'] = len(rows)
     res.coverage['exhaustive'] = True
     res.coverage['rule'] = ('keys of all tasks V -> W -> X for every value of the family in V.v (distance 0, 1, 2), values wrapped in parameter objects at nesting 0/1, a base/subclass object pair, '
@@ -245,6 +308,10 @@ def run(tier, seed):
 
 
 def replay(case):
+    if case.get('kind') == 'sweep':
+        import tcv
+        tcv.quiet_library()
+        return inplace_sweep()
     import tcv
 
     tcv.quiet_library()
